@@ -1179,6 +1179,7 @@ def _saturate_elements(run, elements):
     r = run.rnd
     n_add = n_swap = 0
     p_add, p_swap = r.choice([0.5, 0.8, 0.95]), r.choice([0.2, 0.5])
+    rich = r.choice([0.0, 0.0, 0.5, 0.9])  # share of donors that are randomly filled-in instances (optional attributes and children drawn) rather than minimal ones
     roots = {id(_root(el)) for el in elements}
     involved = [part for part in xml_parts(run.prs) if id(part._element) in roots]
     pre = {part: xsdkit.validate_part(etree.tostring(part._element))[0] for part in involved}
@@ -1188,11 +1189,11 @@ def _saturate_elements(run, elements):
         for el in queue:
             if el.getparent() is None and id(el) not in roots:
                 continue  # swapped away by an earlier step
-            for how, tag in instgen.saturate(el, r, parser_el=parse_xml, p_add=p_add, p_swap=p_swap, skip=SAT_SKIP_CHILDREN):
+            for how, tag in instgen.saturate(el, r, parser_el=parse_xml, p_add=p_add, p_swap=p_swap, skip=SAT_SKIP_CHILDREN, rich=rich):
                 n_add += how == "add"
                 n_swap += how == "swap"
                 fresh += [c for c in el.findall(tag) if isinstance(c, BaseOxmlElement)]
-        queue = fresh[:200]
+        queue = fresh[:200] if not rich else fresh[:25]
     run.acc.count("saturate:children_added", n_add)
     run.acc.count("saturate:choice_members_swapped", n_swap)
     for part in involved:
